@@ -371,6 +371,8 @@ val data_v2_binary_format : coq_N list
 
 val data_v2_base64_prefix : coq_N list
 
+val data_v2_piece_terminator : coq_N list option
+
 val data_v1_binary_format : coq_N list
 
 val pause_line_format : coq_N list
